@@ -17,6 +17,14 @@ Proof. split; vm_compute; reflexivity. Qed.
 Lemma signer_uses_classified_proof : all_uses_classified signer_use_table signer_uses = true.
 Proof. vm_compute; reflexivity. Qed.
 
+(** every package-level variable written during execution is classified *)
+Lemma process_globals_classified_proof : all_globals_classified globals_table process_globals = true.
+Proof. vm_compute; reflexivity. Qed.
+
+Lemma global_finding_classes_are :
+  global_finding_classes globals_table = ["procstate:gas-table-keeps-unparsable-param"]%string.
+Proof. vm_compute. reflexivity. Qed.
+
 (** lifting the boolean sweep: every generated site has a class *)
 Lemma every_site_has_a_class :
   forall s, In s map_ranges -> exists c, lookup_class classification (key_of_generated s) = Some c.
